@@ -138,7 +138,7 @@ pub fn full_solutions(inst: &Inst) -> Vec<(isize, Vec<(usize, isize)>)> {
     out
 }
 
-type FatalHook = Box<dyn Fn(&Violation, &crate::sched::SchedStats) + Send + Sync>;
+type FatalHook = Box<dyn Fn(&Violation, &SchedReport) + Send + Sync>;
 static FATAL_HOOK: Mutex<Option<FatalHook>> = Mutex::new(None);
 /// The runner registers what must happen when the scheduler has to kill the process (deadlock, step bound).
 pub fn set_fatal_hook(h: Option<FatalHook>) { *FATAL_HOOK.lock().unwrap() = h; }
@@ -150,7 +150,7 @@ fn fatal_handler(f: Fatal, rep: &SchedReport) {
         Fatal::UnexpectedWaker => (vec![], "harness-unexpected-waker"),
     };
     let v = Violation { props: props.iter().map(|s| s.to_string()).collect(), class: class.into(), msg: format!("{:?}: worker states {:?} after {} scheduling steps", f, rep.thread_states, rep.stats.steps) };
-    if let Some(h) = FATAL_HOOK.lock().unwrap().as_ref() { h(&v, &rep.stats); }
+    if let Some(h) = FATAL_HOOK.lock().unwrap().as_ref() { h(&v, rep); }
     use std::io::Write; let _ = std::io::stdout().flush();
 }
 
@@ -313,8 +313,8 @@ pub fn judge(sc: &Scenario, out: &Outcome) -> Vec<Violation> {
         if !out.is_exact { add(props.clone(), "not-exact", s("uninterrupted maximize() reported is_exact = false")); }
         if out.best_value != opt { add(props.clone(), "wrong-optimum", format!("best_value = {:?} but the optimum is {:?}", out.best_value, opt)); }
     }
-    // --- C05: soundness of bounds, always (cut or not) -----------------------
-    {
+    // --- C05: soundness of bounds whenever a cutoff is configured (it may fire at any poll, or beyond the last one)
+    if sc.cut != CutPlan::Never {
         let c05 = vec![s("C05")];
         let o = opt.unwrap_or(isize::MIN);
         if out.lb > o { add(c05.clone(), "lb-above-optimum", format!("best_lower_bound() = {} > optimum {:?} (cutoff {:?}, fired = {})", out.lb, opt, sc.cut, out.fired)); }
